@@ -182,7 +182,81 @@ def _syntax_transformers():
                 return ast.copy_location(ast.BinOp(left=n.left, op=ast.Mult(), right=copy.deepcopy(n.left)), n)
             return n
 
-    return {"methods of every class in reverse order": ReverseMethods, "else after return / raise / continue removed": NoElseReturn,
+    class ElseAbsorb(ast.NodeTransformer):  # if c: ...return ; B   ->   if c: ...return  else: B     (inverse of the above)
+        def _blk(self, body):
+            for i, s_ in enumerate(body):
+                if isinstance(s_, ast.If) and not s_.orelse and s_.body and isinstance(s_.body[-1], (ast.Return, ast.Raise, ast.Continue, ast.Break)) and body[i + 1:]:
+                    s_.orelse = self._blk(body[i + 1:])
+                    return body[: i + 1]
+            return body
+
+        def generic_visit(self, n):
+            super().generic_visit(n)
+            for fld in ("body", "orelse", "finalbody"):
+                b = getattr(n, fld, None)
+                if isinstance(b, list) and b and isinstance(b[0], ast.stmt) and not isinstance(n, ast.Module):
+                    setattr(n, fld, self._blk(b))
+            return n
+
+    class IfExpToIf(ast.NodeTransformer):  # x = a if c else b   ->   if c: x = a  else: x = b
+        def visit_Assign(self, n):
+            if isinstance(n.value, ast.IfExp) and len(n.targets) == 1 and isinstance(n.targets[0], ast.Name):
+                import copy
+
+                v = n.value
+                return ast.copy_location(ast.If(test=v.test, body=[ast.Assign(targets=[copy.deepcopy(n.targets[0])], value=v.body)], orelse=[ast.Assign(targets=[copy.deepcopy(n.targets[0])], value=v.orelse)]), n)
+            return n
+
+    class DeadCode(ast.NodeTransformer):  # an unused method in every class, an unused function in every module, a docstring in every function
+        def visit_ClassDef(self, n):
+            self.generic_visit(n)
+            n.body.append(ast.parse("def _unused_method(self):\n    return None").body[0])
+            return n
+
+        def visit_FunctionDef(self, n):
+            self.generic_visit(n)
+            b = n.body
+            if not (b and isinstance(b[0], ast.Expr) and isinstance(b[0].value, ast.Constant) and isinstance(b[0].value.value, str)):
+                n.body = [ast.Expr(value=ast.Constant(value="documented"))] + b
+            return n
+
+        def visit_Module(self, n):
+            self.generic_visit(n)
+            n.body.append(ast.parse("def _unused_helper(x=None):\n    return x").body[0])
+            return n
+
+    class Logging(ast.NodeTransformer):  # a logger.debug(...) line at the start of every function and loop body
+        @staticmethod
+        def _ins(body):
+            return [ast.parse("logging.getLogger(__name__).debug('trace')").body[0]] + body
+
+        def visit_FunctionDef(self, n):
+            self.generic_visit(n)
+            b = n.body
+            if b and isinstance(b[0], ast.Expr) and isinstance(b[0].value, ast.Constant) and isinstance(b[0].value.value, str):
+                n.body = [b[0]] + self._ins(b[1:])
+            else:
+                n.body = self._ins(b)
+            return n
+
+        def visit_For(self, n):
+            self.generic_visit(n)
+            n.body = self._ins(n.body)
+            return n
+
+        visit_While = visit_For
+
+        def visit_Module(self, n):
+            self.generic_visit(n)
+            k = 1 if n.body and isinstance(n.body[0], ast.Expr) and isinstance(n.body[0].value, ast.Constant) else 0
+            while k < len(n.body) and isinstance(n.body[k], ast.ImportFrom) and n.body[k].module == "__future__":
+                k += 1
+            n.body.insert(k, ast.parse("import logging").body[0])
+            return n
+
+    return {"return / raise / continue followed by code rewritten with an else": ElseAbsorb, "conditional expressions written as if / else statements": IfExpToIf,
+            "unused method / function added everywhere, every function documented": DeadCode, "logging.getLogger(__name__).debug('trace') added to every function and loop body": Logging,
+            "methods of every class in reverse order": ReverseMethods, "else after return / raise / continue removed": NoElseReturn,
             "two-way assignments written as conditional expressions": IfToIfExp, "squares written as products": PowToMul,
             "annotated constant locals (x: int = 3)": Annotate, "arithmetic call arguments hoisted into temporaries": Hoist, "augmented assignments written out (x = x + v)": AugPlain,
             "print('trace') added to every function and loop body": Trace, "operands of every product swapped": SwapMult,
